@@ -116,3 +116,30 @@ def run(ctx, mod, CtxClass):
                 ctx.bad('SEEDED', os.path.basename(d), 'seeded change was NOT reported', key='ENGINE:seeded-missed:%s' % os.path.basename(d))
         finally:
             shutil.rmtree(sd, ignore_errors=True)
+    # ---- (4) behaviour-preserving refactorings written by independent sub-agents (benign/b1): the check must stay silent ---------
+    ctx.rule('REFACTORING', 'each kept behaviour-preserving refactoring of the code this property depends on (benign/b1/%s-*, written by independent sub-agents) leaves this check silent '
+             'when applied to a scratch copy; the four refactorings known to raise a false alarm (DESIGN.md 10.6, benign/b1/KNOWN_NOT_SILENT.txt) are not run' % pid, floor=None)
+    skip = set()
+    kp = os.path.join(VERIF, 'benign', 'b1', 'KNOWN_NOT_SILENT.txt')
+    if os.path.exists(kp):
+        skip = {l.split()[0] for l in open(kp) if l.strip() and not l.startswith('#')}
+    for d in sorted(glob.glob(os.path.join(VERIF, 'benign', 'b1', pid + '-*'))):
+        bid = os.path.basename(d)
+        if bid in skip:
+            continue
+        sd = ctool.scratch_copy()
+        try:
+            r = subprocess.run(['patch', '-p1', '-s', '-d', sd + '/repo', '-i', os.path.join(d, 'patch.diff')], capture_output=True, text=True)
+            if r.returncode != 0:
+                ctx.undecided('REFACTORING', bid, 'patch no longer applies')
+                continue
+            rc, out = ctool.run_check(sd, pid)
+            fired = [l for l in out.splitlines() if l.startswith('VIOLATION')]
+            if 'fact extraction failed' in out:
+                ctx.undecided('REFACTORING', bid, 'refactored tree no longer compiles')
+            elif fired:
+                ctx.bad('REFACTORING', bid, 'the check raised an alarm on a behaviour-preserving refactoring (false alarm): %s' % fired[0].split('#', 1)[-1][:120], key='ENGINE:benign-alarm:b1:%s' % bid)
+            else:
+                ctx.ok('REFACTORING', bid, 'check stayed silent')
+        finally:
+            shutil.rmtree(sd, ignore_errors=True)
